@@ -391,6 +391,20 @@ func runC15(t *testing.T, id string, c c15Case) {
 			} else {
 				viol("related-object-does-not-wake-parent:"+info.Resource, fmt.Sprintf("%s %s/%s appears in the parent's related map, but changing it did not queue the parent", info.Kind, ns, name))
 			}
+			// a change that takes the object out of the selection is a change of an object in the
+			// related map too (the parent has to learn that it is gone from its view)
+			mark = w.q.Mark()
+			s.ExtMutate(info.GVR(), ns, name, func(o sim.Obj) { sim.SetLabels(o, map[string]string{"relabelled": "away"}) })
+			if !w.quiesce() {
+				inconclusive(t, "C15", id, w.watchdog)
+				return
+			}
+			total++
+			if w.q.AddedSince(mark)[sc.parentKey()] > 0 {
+				woke++
+			} else {
+				viol("related-object-does-not-wake-parent:relabelled:"+info.Resource, fmt.Sprintf("%s %s/%s appears in the parent's related map, but replacing its labels did not queue the parent", info.Kind, ns, name))
+			}
 		}
 	}
 	rep.Counter("C15", "related_objects_checked_for_wakeup", int64(total))
